@@ -54,6 +54,9 @@ def configs(tier, seed):
     for provider in ("VideoReader", "LabelsReader"):
         for scale in (1.0, 0.5):
             out.append(dict(kind="predictor", model="single", provider=provider, scale=scale, max_stride=4, H=8 if scale == 1.0 else 16, W=8 if scale == 1.0 else 16))
+    # one batch of two frames of different sizes, size-matched to a common max_height/max_width: each frame has its own effective scale
+    for provider in (("VideoReader",) if tier == "quick" else ("VideoReader", "LabelsReader")):
+        out.append(dict(kind="predictor", model="single", provider=provider, scale=1.0, max_stride=4, H=4, W=4, frames=[[4, 4], [8, 8]], max_hw=8, batch=2))
     return out
 
 
@@ -270,10 +273,10 @@ def _make_predictor(cfg, net):
     import sleap_nn.inference.single_instance as si
     from omegaconf import OmegaConf
     P = pr.SingleInstancePredictor.__new__(pr.SingleInstancePredictor)
-    P.confmap_config = OmegaConf.create({"data_config": {"preprocessing": {"scale": cfg["scale"], "max_height": None, "max_width": None, "is_rgb": False}},
+    P.confmap_config = OmegaConf.create({"data_config": {"preprocessing": {"scale": cfg["scale"], "max_height": cfg.get("max_hw"), "max_width": cfg.get("max_hw"), "is_rgb": False}},
                                          "model_config": {"backbone_config": {"unet": {"max_stride": cfg["max_stride"]}}}})
     P.backbone_type = "unet"
-    P.batch_size = 1
+    P.batch_size = cfg.get("batch", 1)
     P.preprocess_config = None  # the data_config property then returns confmap_config.data_config.preprocessing
     P.instances_key = False
     P.inference_model = si.SingleInstanceInferenceModel(net, output_stride=2, peak_threshold=0.2, refinement=None, input_scale=cfg["scale"])
@@ -290,36 +293,41 @@ def _run_predictor(cfg):
     import sleap_nn.inference.predictors as pr
     pr.torch = T.TORCH_PROXY
     rep = Report(cfg)
-    H, W, N, s = cfg["H"], cfg["W"], 2, 2
-    kx = [z3.Real(f"kx{n}") for n in range(N)]
-    ky = [z3.Real(f"ky{n}") for n in range(N)]
-    # keypoints well inside the frame so that they are inside the grid span for either scale
+    N, s = 2, 2
+    sizes = [tuple(x) for x in cfg.get("frames", [[cfg["H"], cfg["W"]]])]  # one record batch; frame b has its own size and keypoints
+    NF = len(sizes)
+    kx = [[z3.Real(f"kx{n}" if NF == 1 else f"kx{b}_{n}") for n in range(N)] for b in range(NF)]
+    ky = [[z3.Real(f"ky{n}" if NF == 1 else f"ky{b}_{n}") for n in range(N)] for b in range(NF)]
     # keypoints inside the span of the grid the CORRECT pipeline works on: k*scale <= (G-1)*s with G = int(H*scale)//s
-    span = Fraction((int(H * cfg["scale"]) // s - 1) * s) / Fraction(cfg["scale"])
-    base = [z3.And(v >= 0, v <= xf.Q(min(span, Fraction(H - s)))) for v in kx + ky]
+    # (size-matched frames are enlarged by an integral factor here, which only widens that span)
+    base = []
+    for b, (H, W) in enumerate(sizes):
+        span = Fraction((int(H * cfg["scale"]) // s - 1) * s) / Fraction(cfg["scale"])
+        base += [z3.And(v >= 0, v <= xf.Q(min(span, Fraction(H - s)))) for v in kx[b] + ky[b]]
     seen = {}
 
     class Net(torch.nn.Module):
         def forward(self, img):
             with T._disable_current_modes():
                 conc = img.materialize() if isinstance(img, T.SymTensor) else img
-                fx, fy, vr, vc = oracle.recover_geometry(conc)
-            seen["given"] = (tuple(conc.shape[-2:]), fx, fy)
+                geo = [oracle.recover_geometry(conc[b:b + 1]) for b in range(conc.shape[0])]
+            seen["given"] = [(tuple(conc.shape[-2:]), g[0], g[1]) for g in geo]
             gh, gw = conc.shape[-2] // s, conc.shape[-1] // s
             vals = []
-            for n in range(N):
-                v, cons = oracle.ideal_channel(f"cm{n}", kx[n] * xf.Q(Fraction(fx).limit_denominator(64)), ky[n] * xf.Q(Fraction(fy).limit_denominator(64)), gh, gw, s, True)
-                oracle.add_constraints(cons)
-                vals += v
-            return T.from_values(vals, (1, N, gh, gw), torch.float32)
+            for b, (fx, fy, vr, vc) in enumerate(geo):
+                for n in range(N):
+                    v, cons = oracle.ideal_channel(f"cm{b}_{n}", kx[b][n] * xf.Q(Fraction(fx).limit_denominator(64)), ky[b][n] * xf.Q(Fraction(fy).limit_denominator(64)), gh, gw, s, True)
+                    oracle.add_constraints(cons)
+                    vals += v
+            return T.from_values(vals, (len(geo), N, gh, gw), torch.float32)
     ex = Explorer(base, timeout_ms=120000, max_paths=3000)
-    frame = (oracle.ramp_image(H, W)[0] * 255).to(torch.uint8)  # (1,H,W) uint8 as the readers deliver; ramp survives /255
 
     def path():
         with T.SymMode():
             P, prm = _make_predictor(cfg, Net())
-            img = oracle.ramp_image(H, W)  # (1,1,H,W) float already in [0,1]-ish: keep float to preserve the ramp exactly
-            reader = _FakeReader([{"image": img, "frame_idx": torch.tensor(0, dtype=torch.int32), "video_idx": torch.tensor(0, dtype=torch.int32), "orig_size": torch.tensor([float(H), float(W)])}])
+            # (1,1,H,W) float ramps already in [0,1]-ish: kept float to preserve the ramp exactly
+            reader = _FakeReader([{"image": oracle.ramp_image(H, W), "frame_idx": torch.tensor(b, dtype=torch.int32), "video_idx": torch.tensor(0, dtype=torch.int32),
+                                   "orig_size": torch.tensor([float(H), float(W)])} for b, (H, W) in enumerate(sizes)])
             real_lr, real_vr = prm.LabelsReader.from_filename, prm.VideoReader.from_filename
             prm.LabelsReader.from_filename = classmethod(lambda cls, **kw: reader)
             prm.VideoReader.from_filename = classmethod(lambda cls, **kw: reader)
@@ -331,19 +339,29 @@ def _run_predictor(cfg):
         return outs, P.preprocess
 
     def extract(model, env):
-        return {"keypoints": [[float(env[f"kx{n}"]), float(env[f"ky{n}"])] for n in range(N)]}
+        if NF == 1:
+            return {"keypoints": [[float(env[f"kx{n}"]), float(env[f"ky{n}"])] for n in range(N)]}
+        return {"keypoints": [[[float(env[f"kx{b}_{n}"]), float(env[f"ky{b}_{n}"])] for n in range(N)] for b in range(NF)]}
     for outs, preprocess in ex.run(path):
         rep.paths += 1
         rep.nontrivial_paths += 1
-        (shape, fx, fy) = seen["given"]
-        tol = Fraction(s) / Fraction(fx).limit_denominator(64) / 2  # half a cell of the grid the network actually works on, in original pixels
         arr = outs[0]["pred_instance_peaks"]
         pk = arr.values() if isinstance(arr, T.SymTensor) else [XF.of(v) for v in np.asarray(arr).reshape(-1)]
-        for n in range(N):
-            discharge(ex, rep, f"PR1-{cfg['provider']}-returns-original-image-coordinates", _within(pk[2 * n], pk[2 * n + 1], kx[n], ky[n], tol),
-                      on_sat=lambda m, env: (f"predictor:{cfg['provider']}:scale{'=1' if cfg['scale'] == 1.0 else '!=1'}",
-                                             f"{cfg['provider']} pipeline (preprocess={preprocess}, network was given {shape} at content scale {fx:.3g}) returns coordinates that are not the original-image position", extract(m, env)))
-        rep.sample({"provider": cfg["provider"], "preprocess_flag": preprocess, "network_input": list(shape), "content_scale": fx})
+        ok_shape = len(outs) == 1 and len(pk) == NF * N * 2 and len(seen["given"]) == NF
+        if not ok_shape:
+            rep.record(f"PR1-{cfg['provider']}-returns-original-image-coordinates", "unknown")
+            rep.inconclusive_item("predictor", f"unexpected record structure: {len(outs)} record batches, {len(pk)} coordinates")
+            continue
+        for b in range(NF):
+            (shape, fx, fy) = seen["given"][b]
+            tol = Fraction(s) / Fraction(fx).limit_denominator(64) / 2  # half a cell of the grid the network actually works on, in original pixels
+            for n in range(N):
+                o = (b * N + n) * 2
+                discharge(ex, rep, f"PR1-{cfg['provider']}-returns-original-image-coordinates", _within(pk[o], pk[o + 1], kx[b][n], ky[b][n], tol),
+                          on_sat=lambda m, env, b=b, shape=shape, fx=fx: (f"predictor:{cfg['provider']}:scale{'=1' if cfg['scale'] == 1.0 else '!=1'}" + (":mixed-size-batch" if NF > 1 else ""),
+                                                 f"{cfg['provider']} pipeline (preprocess={preprocess}, frame {b} of {NF}: network was given {shape} at content scale {fx:.3g}) returns coordinates that are not the original-image position", extract(m, env)))
+        (shape, fx, fy) = seen["given"][0]
+        rep.sample({"provider": cfg["provider"], "preprocess_flag": preprocess, "network_input": list(shape), "content_scales": [g[1] for g in seen["given"]]})
     rep.witness("model-with-visible-and-invisible-node", True)
     return rep.finish(extra={"ops": sorted(T.OPS_USED)})
 
@@ -415,17 +433,20 @@ def replay(cfg, inputs, obligation):
     from symx import oracle
     import sleap_nn.inference.predictors as pr
     K = inputs["keypoints"]
-    H, W = cfg["H"], cfg["W"]
+    sizes = [tuple(x) for x in cfg.get("frames", [[cfg["H"], cfg["W"]]])]
+    if len(sizes) == 1:
+        K = [K]
     info = {}
 
     class Net(torch.nn.Module):
         def forward(self, img):
-            fx, fy, _, _ = oracle.recover_geometry(img)
-            info["given"] = (tuple(img.shape[-2:]), fx)
+            geo = [oracle.recover_geometry(img[b:b + 1]) for b in range(img.shape[0])]
+            info["given"] = (tuple(img.shape[-2:]), [g[0] for g in geo])
             gh, gw = img.shape[-2] // 2, img.shape[-1] // 2
-            return _gauss_maps([(k[0] * fx, k[1] * fy, True) for k in K], gh, gw, 2)[None]
+            return torch.stack([_gauss_maps([(k[0] * fx, k[1] * fy, True) for k in K[b]], gh, gw, 2) for b, (fx, fy, _, _) in enumerate(geo)])
     P, prm = _make_predictor(cfg, Net())
-    reader = _FakeReader([{"image": oracle.ramp_image(H, W), "frame_idx": torch.tensor(0, dtype=torch.int32), "video_idx": torch.tensor(0, dtype=torch.int32), "orig_size": torch.tensor([float(H), float(W)])}])
+    reader = _FakeReader([{"image": oracle.ramp_image(H, W), "frame_idx": torch.tensor(b, dtype=torch.int32), "video_idx": torch.tensor(0, dtype=torch.int32), "orig_size": torch.tensor([float(H), float(W)])}
+                          for b, (H, W) in enumerate(sizes)])
     real_lr, real_vr = prm.LabelsReader.from_filename, prm.VideoReader.from_filename
     prm.LabelsReader.from_filename = classmethod(lambda cls, **kw: reader)
     prm.VideoReader.from_filename = classmethod(lambda cls, **kw: reader)
@@ -434,7 +455,7 @@ def replay(cfg, inputs, obligation):
         outs = list(P._predict_generator())
     finally:
         prm.LabelsReader.from_filename, prm.VideoReader.from_filename = real_lr, real_vr
-    pred = torch.as_tensor(outs[0]["pred_instance_peaks"][0])
-    tol = 2 / info["given"][1] / 2
-    bad = (pred - torch.tensor(K)).abs().max() > tol + 1e-3
-    return bool(bad), f"{cfg['provider']} (preprocess={P.preprocess}, scale={cfg['scale']}): network given {info['given']}, predicted {pred.tolist()} truth {K} tolerance {tol}"
+    pred = torch.as_tensor(outs[0]["pred_instance_peaks"])[:len(sizes)]
+    tols = torch.tensor([2 / fx / 2 for fx in info["given"][1]]).reshape(-1, 1, 1)
+    bad = ((pred - torch.tensor(K)).abs() > tols + 1e-3).any()
+    return bool(bad), f"{cfg['provider']} (preprocess={P.preprocess}, scale={cfg['scale']}): network given {info['given']}, predicted {pred.tolist()} truth {K} tolerance {tols.reshape(-1).tolist()}"
